@@ -2,6 +2,7 @@ CONSTANTS
   P = 4
   Precs = {3, 4, 5, 6, 7}
   NCands = 2
+  Enclosed = FALSE
 INIT Init
 NEXT Next
 INVARIANT FoldWellTiled
